@@ -145,8 +145,10 @@ def main() -> int:
         if not os.path.exists(os.path.join(d, "meta.json")):
             continue
         meta = json.load(open(os.path.join(d, "meta.json")))
-        r = check(d, a.tier, [meta["property"]], a.seed)
-        rows.append((name, meta["property"], r[meta["property"]]))
+        prop = meta.get("check_property", meta["property"])
+        tier = "thorough" if meta.get("caught_by", "").endswith("thorough") else a.tier
+        r = check(d, tier, [prop], a.seed)
+        rows.append((name, prop, r[prop]))
     caught = sum(1 for _, _, r in rows if r["exit"] == 1)
     print(f"[all] {caught}/{len(rows)} seeded changes caught at tier {a.tier}")
     for name, prop, r in rows:
